@@ -12,5 +12,7 @@ CONSTANTS
   GtBug = FALSE
 SPECIFICATION TraceSpec
 INVARIANTS TypeOK AcceptedNeverExceedsCap ShadowNeverRejects ShadowRecordsCrossing OffCountsNothing RequiredRejectionLatches
-  BestEffortDoesNotLatch LatchedIsExhausted RefsOK PublishOnce PublishedWhenQuiescent NotAccepted
+  BestEffortDoesNotLatch LatchedIsExhausted RefsOK PublishOnce PublishedWhenQuiescent
+CONSTRAINT HighWater
+POSTCONDITION TraceAccepted
 CHECK_DEADLOCK FALSE
